@@ -747,7 +747,7 @@ func (c *Ctx) algorithmCtors() (authFn, integFn, ciphFn *ssa.Function) {
 	ia := c.Named("pkg/ipmi", "IntegrityAlgorithm")
 	ca := c.Named("pkg/ipmi", "ConfidentialityAlgorithm")
 	for _, fn := range c.LibFuncs() {
-		if fn.Signature.Recv() != nil || len(fn.Params) < 1 || fn.Pkg == nil || fn.Pkg.Pkg.Path() != modPath || fn.Signature.Results().Len() != 2 {
+		if fn.Signature.Recv() != nil || len(fn.Params) < 1 || fn.Pkg == nil || !c.libFn(fn) || fn.Signature.Results().Len() != 2 {
 			continue
 		}
 		t, _ := fn.Params[0].Type().(*types.Named)
